@@ -50,10 +50,14 @@ CLAIMS = {
             "PARTIAL proof. Proved on the model: value of a mated / stalemated node for any window, depth and table. The root-level statement for arbitrary "
             "tables is decided by running real searches (depth 1..4, fresh and pre-filled tables) on generated mate-in-one roots.",
             "DESIGN.md section 6 C12", "modulo fuel"),
-    "C04": ("proof", "Coq proof of the key code's minimum distance (vm_compute sweep over regenerated tables, lifted by induction) + differential on incremental/recomputed keys",
-            "PARTIAL proof. Proved: any 1..4 distinct entries of the regenerated key tables XOR to a non-zero value (positions differing in up to four "
-            "key features get different keys); null moves keep incremental = recomputed. Not proved yet: incremental = recomputed for real moves, key = XOR of features; those rest on the correspondence "
-            "run (every legal move and null move of sampled positions, whole play-outs, all positions met: equal features <=> equal key).",
+    "C04": ("proof", "Coq proofs: recomputed key = function of the abstract 8x8 state (XOR-sum over squares, linear in the boards); predicted key = recomputed key after the move for every move kind incl. castling, makemove stores the prediction, null move; minimum distance of the key code (vm_compute sweep over regenerated tables) + differential on incremental/recomputed keys",
+            "Proved on the model: (a) calculate_hash p = spec_key (abs_state p): the key is a function of placement, side to move, castling "
+            "rights held and en-passant file only -- not of counters, stored perspective or path; (b) predict_hash p m = calculate_hash "
+            "(makemove p m) and hash (makemove true p m) = predict_hash p m for every move (quiet, capture, double push, en passant, promotion, "
+            "castling in both geometries) that passes the executable test key_move_b, and the null-move step: the invariant 'stored key = "
+            "recomputed key' is preserved step by step; (c) any 1..4 distinct entries of the regenerated key tables XOR to a non-zero value. "
+            "key_move_b is evaluated (true) on every legal move the run generates; that every legal move of D passes it, and the "
+            "'different positions had different keys' clause, rest on the correspondence run.",
             "DESIGN.md section 6 C04", ""),
     "C05": ("proof", "Coq lemmas on the model of `moves`/`position` + differential against the token-denotation specification",
             "PARTIAL proof. Proved on the model: one key per position reached, in order; an unknown token changes nothing; only legal moves are "
